@@ -16,7 +16,7 @@ import (
 // interleaving.  (Producer.Launch is replay-only: which waiter gets which value is not logged.)
 var recordKinds = map[string][]string{
 	"once": {"Worker.Once", "Operation.Once", "Producer.Once", "Processor.Once", "Handler.Once", "Future.Once",
-		"adt.Once.Resolve", "adt.Once.Do", "adt.Mnemonize", "ft.Once", "ft.OnceDo", "Worker.Once.Lock", "Worker.Lock.Once",
+		"adt.Once.Resolve", "adt.Once.Do", "adt.Once.DoOnly", "adt.Mnemonize", "ft.Once", "ft.OnceDo", "Worker.Once.Lock", "Worker.Lock.Once",
 		"Producer.Limit.Once"},
 	"limit":   {"Worker.Limit", "Processor.Limit", "Producer.Limit", "Future.Limit", "Worker.Limit.Lock", "Worker.Lock.Limit"},
 	"oplimit": {"Operation.Limit"},
